@@ -578,7 +578,7 @@ pub fn check(sc: &Scenario, env: &mut Env) -> Result<Outcome, HarnessError> {
         // the stack over it
         let real_layers = w.layers.len() > 1 || !matches!(w.layers.first(), Some(Layer::Fe(t)) if t.is_empty());
         if real_layers {
-            let ex = expect(&w.layers, &u, &sc.cwd)?;
+            let ex = expect(&w.layers, &u, &env.root_text)?;
             let actual: Vec<String> = s.ys.iter().map(|y| y.wp.clone().unwrap_or_default()).collect();
             if actual != ex.yields {
                 let (mut a, mut e) = (actual.clone(), ex.yields.clone());
